@@ -236,6 +236,27 @@ CHECKS = {
 NOT_YET = {}
 
 
+# later extensions of the generators / oracles, appended to the level text
+ADDENDA = {
+    "C01": " Exodus sources with up to one block per element; after the tables the source did not carry have been derived, faces and carried tables are judged again.",
+    "C03": " Node tables with unused (orphan) entries; int64 sources opened twice.",
+    "C04": " Orphan nodes, cells down to 1e-3 degrees; after the access history the face centres are rebuilt with construct_face_centers (both methods) and both coordinate systems are compared again.",
+    "C05": " Areas of a mesh carrying Cartesian node coordinates on a sphere of radius 2.5 / 6371229 must equal those of the unit-sphere grid.",
+    "C07": " Tiny and micro patches (cells down to 2e-6 degrees, judged by the tolerance-free count of distinct corner nodes) and node tables with orphan entries.",
+    "C09": " Sources with Cartesian coordinates on a non-unit sphere (MPAS sphere_radius, node_x/y/z next to lon/lat).",
+    "C10": " Reductions over the grid dimension, copy.deepcopy, a deep-copy probe of every other result, and the same index list along two grid dimensions on two arrays of one grid (judged against a fresh grid).",
+    "C11": " The caller's query array is compared with a private copy after every query; grids may carry Cartesian coordinates on a non-unit sphere.",
+    "C12": " Destinations include a second Grid of the source mesh with other supplied centres or its own edge numbering; either side may supply an edge table and Cartesian coordinates on a non-unit sphere; the source variable must be unchanged.",
+    "C13": " A quarter of the grids also carry Cartesian node coordinates on a sphere of radius 1, 2.5 or 6371229.",
+    "C15": " A quarter of the grids carry Cartesian node coordinates at radius 6371229.",
+    "C16": " Topology-array grids carry Cartesian node coordinates at radius 6371229 in half of the cases; the variable differenced must be unchanged.",
+    "C17": " Orphan nodes; the aggregated variable must be unchanged.",
+    "C18": " Grids with Cartesian coordinates on a non-unit sphere; duals of face subsets taken from a fresh grid, after node_face_connectivity, or after the whole grid's dual.",
+    "C19": " Topology constructors also receive caller-owned node_x/y/z; UxDataArray.to_geodataframe cached and with cache=False on a grid that already holds a frame.",
+    "C20": " For grids built from Cartesian face vertices the expectation follows the points handed in.",
+}
+
+
 def main():
     props = [json.loads(l) for l in open(os.path.join(ROOT, "properties.jsonl"))]
     checks, na = [], []
@@ -243,6 +264,7 @@ def main():
         pid = p["id"]
         if pid in CHECKS:
             tech, text, note, ref = CHECKS[pid]
+            text = text + ADDENDA.get(pid, "")
             checks.append(
                 {
                     "property_id": pid,
